@@ -90,6 +90,7 @@ fn init_process(db_path: &Path) {
                 else if let Some(s) = info.payload().downcast_ref::<String>() { s.clone() }
                 else { "panic".to_string() };
             let loc = info.location().map(|l| format!(" at {}:{}", l.file(), l.line())).unwrap_or_default();
+            if std::env::var("HX_SHOW_PANICS").is_ok() { eprintln!("panic: {}{}", msg, loc); }
             if let Ok(mut g) = LAST_PANIC.lock() { *g = format!("{}{}", msg, loc); }
         }));
         let d = vh::Brc20ProgConfig::from_env();
@@ -150,7 +151,7 @@ fn open_methods(dir: &Path) -> Result<jsonrpsee::Methods, String> {
     let mut last = String::new();
     for _ in 0..100 {
         match catch_unwind(AssertUnwindSafe(|| vh::Brc20ProgDatabase::new(dir).map_err(|e| e.to_string()))) {
-            Ok(Ok(db)) => return Ok(vh::verif_rpc_methods(vh::BRC20ProgEngine::new(db))),
+            Ok(Ok(db)) => return Ok(vh::verif_rpc_methods_with_probe(vh::BRC20ProgEngine::new(db))),
             Ok(Err(e)) => last = e,
             Err(_) => last = format!("panic while opening: {}", take_panic()),
         }
